@@ -21,6 +21,14 @@ open Scalibr.Gen.Registry
 theorem C19_validate_spec (req caps : Caps) : validate req caps = true ↔ satisfied req caps = true := by
   rw [validate_eq_satisfied]
 
+/-- UNKNOWN ENVIRONMENT. Against the zero value of `Capabilities` (what a nil `*Capabilities` stands for: nothing is known about
+the scan environment) exactly the plugins WITHOUT requirements validate — for all 60 requirement tuples. (The Go code
+dereferences the nil pointer instead: recorded finding C19/nil-capabilities-panic; judged by the `nilcaps` cases.) -/
+theorem C19_unknown_environment (req : Caps) :
+    validate req ⟨.any, .any, false, false⟩ = true ↔ req = ⟨.any, .any, false, false⟩ := by
+  obtain ⟨o, n, d, r⟩ := req
+  cases o <;> cases n <;> cases d <;> cases r <;> decide
+
 /-- The capability filter keeps exactly the satisfied plugins, in order — for every plugin list. The specification's
 filter is a PURE FUNCTION of (list, capabilities): calling it again, with other capabilities, on the same list changes
 neither the list nor any earlier result. For the Lean model that is how functions are; for the Go code (slices share
